@@ -1,5 +1,23 @@
 /-
-Renumbering of packet tags, and the file-level forms of C09 / C11 / C03 (/ C08) that need it.
+Renumbering of packet tags, and the literal file-to-file forms of C09 / C11 / C03 / C08 that need it.
+
+`Pkt.tag` is the position of the packet in the capture (`Ingest`). Adding or removing blocks renumbers the packets behind
+them. `Lemmas/TagNat`: NO part of the program compares tags (reassembly carries them into the carrier lists, the session
+stores them, `Session.decrypt()` and the QUIC machine read `info tag`), so for ANY function `ρ` — neither injective nor
+monotone — the run on retagged items with table `info'` is the run on the original items with `info' ∘ ρ`.
+
+1. `framesFrom_retag`, `framesFrom_info_congr`, `framesFrom_alike` / `tlsFrames_alike`: item lists that are position by
+   position alike up to the frames' tags, with tables that say the same about corresponding frames, give the same run
+   (proved through the canonical renumbering `renum`; nothing is assumed about either list's tags).
+2. the read loop item by item (`one`, `go_cons`), `go_filter` (a capture with reader items removed), `go_shift`.
+3. C09  `export_key_delivery_files` (any numbers of secrets blocks in front, TLS + QUIC), `export_key_delivery_files_tls`
+        (TLS-only captures: blocks anywhere between the same packet blocks)
+   C11  `export_checksum_filter_reader`, `export_checksum_filter_file` (`-c` on the file = no `-c` on the file re-encoded
+        without the rejected frames, any container variant; hypothesis: the `-c` run reads the capture to the end)
+   C03  `export_bystander_unaffected_file`, `export_bystander_unaffected_encoded` (TLS bystanders)
+   C08  `read_cut`, `export_cut_prefix_tls_file` (the reader hypotheses of `ExportProps.export_cut_prefix_tls_ingest`
+        discharged from the encoder, both containers)
+   Replayed on the real tool: harness/export_inputs2_replay.py.
 -/
 import TLX.Lemmas.TagNat
 import TLX.Props.ExportInputs
